@@ -313,3 +313,6 @@ Proof.
   intros pv vlast H. unfold cumulative. cbv zeta.
   rewrite (last_map _ _ (c0 RNum)) by (apply cumsum_nonempty, H). rconst. lra.
 Qed.
+
+Lemma zero_thick_example : zero_thick (desc RNum [1; 2; 4] [0; 0; 0] [1; 2; 3]).
+Proof. repeat constructor; simpl; lra. Qed.
